@@ -69,6 +69,8 @@ def bits(x):
 
 
 def run_slices(ctx):
+    import skeleton
+    skeleton.check_names(ctx, "wind", UTILS(), ["compute_wind_fields"], skeleton.slice_names(SLICES))
     try:
         text = py2coq.translate(UTILS(), SLICES, "R")
     except py2coq.TranslateError as e:
